@@ -43,25 +43,32 @@ type Producers = Vec<(String, Vec<(String, String)>)>;
 
 fn producers(bytes: &[u8]) -> Option<Producers> {
     let secs = raw_sections(bytes).ok()?;
-    let s = secs.iter().find(|s| is_named(s, "producers"))?;
-    let payload = &bytes[s.payload.clone()];
-    let nlen = crate::decode::leb_len(9) + 9;
-    let data = &payload[nlen..];
-    let r = wasmparser::ProducersSectionReader::new(wasmparser::BinaryReader::new(
-        data,
-        0,
-        wasmparser::WasmFeatures::all(),
-    ))
-    .ok()?;
-    let mut out = Vec::new();
-    for f in r {
-        let f = f.ok()?;
-        let mut vals = Vec::new();
-        for v in f.values {
-            let v = v.ok()?;
-            vals.push((v.name.to_string(), v.version.to_string()));
+    // an input may carry more than one producers section: their fields add up
+    let mut out: Producers = Vec::new();
+    let mut any = false;
+    for s in secs.iter().filter(|s| is_named(s, "producers")) {
+        any = true;
+        let payload = &bytes[s.payload.clone()];
+        let nlen = crate::decode::leb_len(9) + 9;
+        let data = &payload[nlen..];
+        let r = wasmparser::ProducersSectionReader::new(wasmparser::BinaryReader::new(
+            data,
+            0,
+            wasmparser::WasmFeatures::all(),
+        ))
+        .ok()?;
+        for f in r {
+            let f = f.ok()?;
+            let mut vals = Vec::new();
+            for v in f.values {
+                let v = v.ok()?;
+                vals.push((v.name.to_string(), v.version.to_string()));
+            }
+            out.push((f.name.to_string(), vals));
         }
-        out.push((f.name.to_string(), vals));
+    }
+    if !any {
+        return None;
     }
     Some(out)
 }
@@ -100,6 +107,16 @@ fn parse_counting_via(bytes: &[u8], cfg: wal::Cfg, hist: u8, entry: Entry) -> Re
     let counter = Arc::new(AtomicUsize::new(0));
     let c2 = counter.clone();
     let mut c = cfg.to_config_hist(hist);
+    // "subsequent registrations override the old ones": a callback registered
+    // first must never run
+    let stale = Arc::new(AtomicUsize::new(0));
+    if hist & 1 != 0 {
+        let s2 = stale.clone();
+        c.on_parse(move |_m, _ids| {
+            s2.fetch_add(1, Ordering::SeqCst);
+            Ok(())
+        });
+    }
     c.on_parse(move |_m, _ids| {
         c2.fetch_add(1, Ordering::SeqCst);
         Ok(())
@@ -127,6 +144,12 @@ fn parse_counting_via(bytes: &[u8], cfg: wal::Cfg, hist: u8, entry: Entry) -> Re
             r?
         }
     };
+    if stale.load(Ordering::SeqCst) != 0 {
+        return Err(Failure::new(
+            "on_parse-overridden-callback-ran",
+            format!("an on_parse callback that a later registration replaced ran {} times", stale.load(Ordering::SeqCst)),
+        ));
+    }
     Ok((r, counter.load(Ordering::SeqCst)))
 }
 
